@@ -85,3 +85,63 @@ PLAN["C17"] = dict(
     quick=dict(proptest={"rel": (8, 6000), "dbg": (4, 3000)}),
     thorough=dict(proptest={"rel": (16, 150000), "dbg": (8, 50000)}),
 )
+
+RX_GEN = ("generation: proptest byte tapes decoded into straight-line regex programs (R1) of 1-%d instructions over all public constructors "
+          "(empty full epsilon sigma_plus all_chars char range char_set str smt_range concat concat_list union union_list inter inter_list complement diff diff_list star plus opt exp smt_loop mk_loop), "
+          "operands drawn from earlier slots (sharing is frequent), ranges and characters from 1-6 boundary-rich landmarks (R2), loop bounds mostly 0-4")
+RX_ASSUME = COMMON_ASSUMPTIONS + [
+    "the exact engines explore all strings over the probed characters: first/last/interior character of every atom plus both ends (+-1) of every derivative class / automaton range of the crate; characters strictly inside a class are assumed to behave like its ends (class_of_char is checked separately in C11)",
+    "programs whose reference DFA exceeds 3000 states, whose loop-range arithmetic overflows u32 (documented panic) or whose derivative closure exceeds 400 terms are discarded and counted",
+]
+
+PLAN["C01"] = dict(
+    rule=RX_GEN % 12 + ", a side stream (12%) with loop bounds up to 150; the program is built on a fresh ReManager and again through the re_* wrappers in a fresh thread; 6 strings per case, half of them random walks of the reference DFA completed to a member. "
+         "Non-trivial = >= 3 instructions, at least one loop/complement/inter/diff, and both a member and a non-member of the final slot among the sampled strings; distinct = digest of (landmarks, program).",
+    oracle="(a) exact: derivative-graph bisimulation (R5) of EVERY slot against its reference DFA (R4, built bottom-up with textbook product/subset constructions from the SMT-LIB meaning of the program): str_in_re agrees with the denotation on all strings over the probed characters, and nullable == (epsilon in L) at every reached term; (b) sampled: str_in_re == DP matcher (R3, no automata) for every slot, covering the large-bound stream; (c) the same through smt_regular_expressions::str_in_re",
+    assumptions=RX_ASSUME,
+    quick=dict(proptest={"rel": (12, 3000), "dbg": (4, 1200)}),
+    thorough=dict(proptest={"rel": (16, 60000), "dbg": (8, 15000)}),
+)
+
+PLAN["C02"] = dict(
+    rule=RX_GEN % 10 + "; the final slot and one other slot are compiled with compile and try_compile(n+3). Non-trivial = automaton of the final slot has >= 3 states and its language is neither empty nor everything; distinct = digest of (landmarks, program).",
+    oracle="structure: every state's ranges sorted, disjoint, inside [0,0x2FFFF]; a default successor whenever a character is uncovered; next() returns without panic on every break-point character of every state (0 and 0x2FFFF included); language: product of the reference DFA with the crate automaton through next() from the initial state (exact equality, not sampled strings); accepts/str_next on sampled strings against the DP matcher",
+    assumptions=RX_ASSUME,
+    quick=dict(proptest={"rel": (12, 3000), "dbg": (4, 1200)}),
+    thorough=dict(proptest={"rel": (16, 60000), "dbg": (8, 15000)}),
+)
+
+PLAN["C03"] = dict(
+    rule=RX_GEN % 10 + "; the term examined is the final slot or a derivative of it (0-2 hops); every class id, every probed character (both ends of every class, characters just outside, atom representatives), 1-5 query sets [a,b] placed on/next to the class boundaries, invalid ids Interval(n), Interval(n+k), Complement when nothing is uncovered. "
+         "Non-trivial = the term has >= 2 classes and a query set straddles classes; distinct = digest of (landmarks, program).",
+    oracle="for every probed character c: char_derivative(e,c) and class_derivative(e, class of c) are bisimilar (R5) to the reference state after c, i.e. denote exactly c^-1 L(e) for all continuation strings, so every character of a class gives the class derivative; str_derivative is pointer-equal to the fold of char_derivative; class ids cover the alphabet (Complement listed iff something is uncovered, computed from char_ranges); invalid ids => Err(BadClassId); set_derivative(e,[a,b]) => Ok(common derivative, checked against the quotient at both ends) when the set lies in one class by linear scan, Err(_) when it meets more than one",
+    assumptions=RX_ASSUME + ["the error variant of set_derivative is not checked (statement: 'an error')"],
+    quick=dict(proptest={"rel": (12, 3000), "dbg": (4, 1200)}),
+    thorough=dict(proptest={"rel": (16, 60000), "dbg": (8, 15000)}),
+)
+
+PLAN["C05"] = dict(
+    rule=RX_GEN % 10 + ", with operator weights biased to inter/diff/complement so that semantically empty sub-terms are frequent; the final slot and one other slot are examined. "
+         "Non-trivial = final language empty although the term is not the syntactic empty term, or a witness of length >= 2; distinct = digest of (landmarks, program).",
+    oracle="is_empty_re(e) <=> the reference DFA has no reachable final state; get_string(e) is None <=> empty; a witness is_good(), is a member by the DP matcher (R3), by str_in_re, and is accepted by compile(e)",
+    assumptions=RX_ASSUME,
+    quick=dict(proptest={"rel": (12, 4000), "dbg": (4, 1500)}),
+    thorough=dict(proptest={"rel": (16, 80000), "dbg": (8, 20000)}),
+)
+
+PLAN["C18"] = dict(
+    rule=RX_GEN % 10 + ", biased to inter/diff/complement (semantically empty operands inside intersections, concatenations and loops); for the final slot and one other slot every probed character and every class id (and invalid ids) is queried. "
+         "Non-trivial = the program contains an intersection/difference or a semantically empty sub-term, and both answers occur over the probed characters; distinct = digest of (landmarks, program).",
+    oracle="start_char(e,c) <=> in the reference DFA the state after atom(c) can reach a final state; start_class(e,cid) gives that value for every probed character of the class (classes recomputed from char_ranges by linear scan); invalid id => Err(BadClassId)",
+    assumptions=RX_ASSUME,
+    quick=dict(proptest={"rel": (12, 4000), "dbg": (4, 1500)}),
+    thorough=dict(proptest={"rel": (16, 80000), "dbg": (8, 20000)}),
+)
+
+PLAN["C19"] = dict(
+    rule=RX_GEN % 10 + "; bounds n in {0, 1, N-1, N, N+1, 2N, usize::MAX, random} where N is the derivative count measured by the harness's own BFS. Non-trivial = N >= 4; distinct = digest of (landmarks, program).",
+    oracle="iter_derivatives(e): first item is e (pointer), no item repeats, item set == closure computed independently by BFS with char_derivative over all class-boundary characters, and the yielded set is closed; try_compile(e,n) is Some <=> N <= n (None for n = 0); compile(e) succeeds; num_states() == N in both",
+    assumptions=RX_ASSUME + ["termination of iter_derivatives is only observable up to the cap of 400 derivatives (a case above the cap is a counted discard; a hang is caught by the watchdog and reported as exit 2)"],
+    quick=dict(proptest={"rel": (12, 4000), "dbg": (4, 1500)}),
+    thorough=dict(proptest={"rel": (16, 80000), "dbg": (8, 20000)}),
+)
